@@ -244,4 +244,5 @@ def run(ctx):
   nt2 = shape.check_state_buffers(ctx, ix.func("ttconv.vtt.tokenizer:CueTextTokenizer"), buffers=("buffer",),
                                  continuation={("start_tag_annot", "annot_cref"): "buffer", ("annot_cref", "start_tag_annot"): "buffer"})
   ctx.floor("TYPESTATE-buffer", "state transitions sharing an accumulator", nt2, 2)
+  lint.falsy_numeric_default(ctx, common.mods(ctx, ["ttconv.vtt.reader", "ttconv.vtt.tokenizer", "ttconv.utils"]))
   common.check_history_independence(ctx, ["ttconv.vtt.reader", "ttconv.vtt.tokenizer", "ttconv.utils"])
